@@ -136,6 +136,14 @@ func grp05Case(w *vlog.W, a *wargs, id int, rng *rand.Rand, opts harness.Options
 	var groups []*grp
 	shape := map[string]bool{}
 	nGroups := 1 + rng.Intn(3)
+	// every third case: two groups (distinct sources) begun in one block with one timeout, so that they share
+	// the per-height timeout list and one of them usually finishes first
+	sharedExpiry := rng.Intn(3) == 0
+	sharedT := []int64{3, 4, 6}[rng.Intn(3)]
+	if sharedExpiry {
+		nGroups = 2
+		shape["shared-timeout-height"] = true
+	}
 	for gi := 0; gi < nGroups; gi++ {
 		g := &grp{from: harness.FullID(harness.ChainC, []string{"s1", "s2"}[gi%2])}
 		n := 1 + rng.Intn(5)
@@ -168,6 +176,9 @@ func grp05Case(w *vlog.W, a *wargs, id int, rng *rand.Rand, opts harness.Options
 		}
 		g.gid = globalTxID(g.from, g.keys, g.vals)
 		g.timeout = []int64{0, 0, 2, 3, 4, 6}[rng.Intn(6)]
+		if sharedExpiry {
+			g.timeout = sharedT
+		}
 		groups = append(groups, g)
 		shape[fmt.Sprintf("n%d", len(g.children))] = true
 		if withGhost {
@@ -200,6 +211,34 @@ func grp05Case(w *vlog.W, a *wargs, id int, rng *rand.Rand, opts harness.Options
 		h := world.R.Height() + 1
 		var subs []sub
 		n := rng.Intn(4)
+		if sharedExpiry && b == 0 {
+			for _, gi := range rng.Perm(len(groups)) {
+				g := groups[gi]
+				subs = append(subs, sub{g, g.children[0], model.KReq})
+				g.children[0].sent = true
+			}
+		}
+		// aimed: in the block in which one group is due, a report that changes the status of another group -
+		// the timeout notifications and the group notifications of that block then go to one chain
+		for _, g := range groups {
+			if g.timeout <= 0 || g.firstH == 0 || h != g.firstH+uint64(g.timeout) || g.failedAt != 0 || rng.Intn(3) == 0 {
+				continue
+			}
+		aim:
+			for _, o := range groups {
+				if o == g || o.failedAt != 0 {
+					continue
+				}
+				for _, c := range o.children {
+					if c.sent && !c.reported {
+						subs = append(subs, sub{o, c, []string{model.KRcpFailure, model.KRcpSuccess}[rng.Intn(2)]})
+						c.reported = true
+						shape["report-in-expiry-block-of-another-group"] = true
+						break aim
+					}
+				}
+			}
+		}
 		for i := 0; i < n; i++ {
 			g := groups[rng.Intn(len(groups))]
 			c := g.children[rng.Intn(len(g.children))]
@@ -245,6 +284,10 @@ func grp05Case(w *vlog.W, a *wargs, id int, rng *rand.Rand, opts harness.Options
 		// what the chains are actually told goes through the router: its delivery sets for this block
 		// (live subscription and replay query) must carry exactly what the executor recorded
 		for _, f := range world.R.TakeRouterFindings() {
+			if f.Part == "timeout" {
+				viol("timeout:delivery:"+f.Sig, f.Detail) // C06's part of the delivery sets
+				continue
+			}
 			viol("notify:"+f.Sig, f.Detail)
 		}
 		w.Count("router_blocks_checked", 1)
